@@ -138,3 +138,8 @@ Fixpoint dict2_set {V : Type} (d : list ((Z * Z) * V)) (k : Z * Z) (v : V) : lis
   | (k', v') :: r =>
       if (fst k' =? fst k) && (snd k' =? snd k) then (k', v) :: r else (k', v') :: dict2_set r k v
   end.
+(* ---- additions for scoring/gaussian_dbal.py (the unranking generator; C15 link) ---- *)
+(* a // b and a % b on ints with cfg["checked_div"]: ZeroDivisionError (Err tag) when b = 0; otherwise floor division /
+   modulo with the sign of the divisor, which is what Coq's Z.div / Z.modulo compute *)
+Definition checked_div (tag : Z) (a b : Z) : result Z := if b =? 0 then Err tag else Ok (a / b).
+Definition checked_mod (tag : Z) (a b : Z) : result Z := if b =? 0 then Err tag else Ok (a mod b).
